@@ -660,3 +660,47 @@ def always_err(F, path, depth=0):
             ok = False
     _ALWAYS_ERR[key] = ok
     return ok
+
+
+def callee_names_deep(F, b, depth=2, _seen=None):
+    """last path segments of everything `b` calls, continued into the crate functions that have no other caller than `b` (pieces of
+    `b` that were moved into private helpers) to the given depth"""
+    _seen = _seen if _seen is not None else {b.path}
+    out = set()
+    for _, t in calls(b):
+        for c in (callee(t), callee_def(t)):
+            if c:
+                out.add(c.rsplit("::", 1)[-1])
+        c = callee(t) or callee_def(t)
+        if depth > 0 and c and c not in _seen and F.has(c):
+            cb = F.body(c)
+            if cb is not None and cb.mir and len(_callers_of(F, c) - {b.path, c}) == 0:
+                _seen.add(c)
+                out |= callee_names_deep(F, cb, depth - 1, _seen)
+    # closures of b
+    for p in F.paths():
+        if p.startswith(b.path + "::{closure") and p not in _seen:
+            cb = F.body(p)
+            if cb is not None and cb.mir:
+                _seen.add(p)
+                out |= callee_names_deep(F, cb, depth, _seen)
+    return out
+
+
+_CALLERS_OF = {}
+
+
+def _callers_of(F, path):
+    if id(F) not in _CALLERS_OF:
+        _CALLERS_OF.clear()
+        idx = {}
+        for cb in F.all_bodies():
+            if not cb.mir:
+                continue
+            owner = cb.path.split("::{closure")[0]
+            for _, t in calls(cb):
+                for c in (callee(t), callee_def(t)):
+                    if c:
+                        idx.setdefault(c, set()).add(owner)
+        _CALLERS_OF[id(F)] = idx
+    return _CALLERS_OF[id(F)].get(path, set())
